@@ -201,7 +201,7 @@ def h_copy(I, job):
     out = I.new_obj(OUTCAP, 'out', 'heap'); ol = I.new_obj(4, 'ol', 'heap')
     rc = I.concretize(I.call('@verif_copy', [cap, mode, op, idm, user, ul, out, OUTCAP, ol]), 'rc')
     s0, s1, d0 = enode(ids[0], ub, [(b'k', b'v')]), enode(ids[1], ub, []), enode(ids[2], ub, [])
-    exp = {0: [d0, s0, s1], 1: [d0, s0, s1], 2: [d0, s0, s1], 3: [s0, s1], 4: [s0, s1], 5: [s0, s1]}[op]
+    exp = {0: [d0, s0, s1], 1: [d0, s0, s1], 2: [d0, s0, s1], 3: [s0, s1], 4: [s0, s1], 5: [s0, s1], 6: [d0, s0, s1], 7: [d0, s0, s1, s0, s1], 8: [d0, s0, s1]}[op]
     finish(I, rc, mode, out, ol, 'copy op %d' % op, exp, I.concretize(cap, 'cap') >= 512)
 
 
@@ -241,7 +241,7 @@ def harnesses(tier):
     hs.append(Harness('purge', 'builders', h_purge, jobs=[dict(count=3, cb=c) for c in (0, 1)] + ([] if q else [dict(count=4, cb=1)]),
                       desc='three nodes of different sizes, every subset marked removed, purge_removed with and without callback: the kept items in order, (old,new) offsets reported for exactly the moved items',
                       bounds='3 items (4 in thorough), all removal subsets, capacity 64..128, user 0..10', testgen=gen(['id0', 'id1', 'id2'], [('ulen', 10)], caps=(64, 128), extra=lambda rnd: {'removed': rnd.getrandbits(3)}), sanitize=True))
-    hs.append(Harness('copy_swap_move', 'builders', h_copy, jobs=[dict(mode=m, op=o) for m in modes for o in range(6)],
-                      desc='add_buffer, push_back, add_item, swap, move construction/assignment, clear + add_buffer between two buffers', bounds='capacity 64..200/512, user 0..10',
+    hs.append(Harness('copy_swap_move', 'builders', h_copy, jobs=[dict(mode=m, op=o) for m in modes for o in range(9)],
+                      desc='add_buffer, push_back, add_item, swap, move construction/assignment, clear + add_buffer between two buffers; also from a source that holds a built but uncommitted object (only committed contents are copied or visited; a later rollback of the source changes nothing in the copy)', bounds='capacity 64..200/512, user 0..10',
                       testgen=gen(['id0', 'id1', 'id2'], [('ulen', 10)]), sanitize=True))
     return hs
